@@ -10,7 +10,7 @@ Per property:
   twins:  {verus obligation id: regex over kani harness names} -- harnesses that can supply a counterexample
 """
 
-HOOK_COMMITS = ['6809889b', '31b7601d', '37d4900d']
+HOOK_COMMITS = ['6809889b', '31b7601d', '37d4900d', 'e04b2e2a']
 
 PROPS = {
     'C18': {
@@ -270,6 +270,23 @@ PROPS['C05'] = {
     'undecided_clauses': [
         'rounding bound for non-lattice coordinates ("within a few units of rounding")',
         'GeometryCollection areas (recursive Geometry delegation: CBMC timeout); rings with more than 3 distinct vertices for winding_order / ring area',
+    ],
+}
+
+PROPS['C14'] = {
+    'title': 'Validation accepts exactly the well-formed geometries',
+    'level': 'proof',
+    'verus': [],
+    'kani_extra': ['--no-memory-safety-checks', '--no-overflow-checks', '--no-assertion-reach-checks'],
+    'kani': [
+        ('geo', 'c14_utils.rs', r'^c14_k_non_finite_all_f64$', 'complete', 'quick'),
+        ('geo', 'c14_utils.rs', r'^c14_k_(too_few_points|self_intersection_|finding_collinear_ring)', 'bounded', 'quick'),
+    ],
+    'trusted': ['only the per-ring helper checks (non-finite coordinate: complete over all f64 / f32; too-few-points and self-intersection on a menu of literal rings) are under contract',
+                'robust::orient2d stubbed by its assumed contract (exact sign) on the integer-valued literals'],
+    'undecided_clauses': [
+        'the Validation trait layer (is_valid / validation_errors / which ring an error names): Kani 0.68 hits an internal compiler error on Validation::check_validation (Box<dyn FnMut>), so nothing that reaches the trait can be compiled',
+        'hole-in-shell, hole-vs-hole and member-vs-member checks (go through relate: C01 assumption); MultiPolygon and the other geometry types',
     ],
 }
 
